@@ -2,6 +2,7 @@ package c19
 
 import (
 	"bufio"
+	"context"
 	"crypto/tls"
 	"io"
 	"net"
@@ -31,6 +32,13 @@ func (g *rig) sawOrigin(v string) bool {
 	g.mu.Lock()
 	defer g.mu.Unlock()
 	return g.originAuth[v] > 0
+}
+
+// noteUpstream records credentials a scripted SOCKS5 proxy received (socksfront.go).
+func (g *rig) noteUpstream(v string) {
+	g.mu.Lock()
+	g.upstreamAuth[v]++
+	g.mu.Unlock()
 }
 
 func (g *rig) sawUpstream(v string) bool {
@@ -101,7 +109,11 @@ func newRig() (*rig, error) {
 	g.upstreamAddr = ul.Addr().String()
 	fwd := &httputil.ReverseProxy{
 		Director:  func(*http.Request) {},
-		Transport: &http.Transport{Proxy: nil, DisableKeepAlives: true},
+		Transport: &http.Transport{Proxy: nil, DisableKeepAlives: true,
+			// the names of the test domain (PAC cases) live on loopback
+			DialContext: func(ctx context.Context, network, addr string) (net.Conn, error) {
+				return (&net.Dialer{Timeout: 3 * time.Second}).DialContext(ctx, "tcp4", resolveTest(addr))
+			}},
 		ErrorHandler: func(w http.ResponseWriter, r *http.Request, err error) {
 			w.WriteHeader(http.StatusBadGateway)
 		},
@@ -126,7 +138,7 @@ func newRig() (*rig, error) {
 			return
 		}
 		if r.Method == http.MethodConnect {
-			dst, err := net.DialTimeout("tcp4", target, 3*time.Second)
+			dst, err := net.DialTimeout("tcp4", resolveTest(target), 3*time.Second)
 			if err != nil {
 				w.WriteHeader(http.StatusBadGateway)
 				return
